@@ -347,8 +347,10 @@ class DimensionInfo(NamedTuple):
             params.type.shape[0] if params.type.ndim == 1 else 1,
             False,
             params.description,
-            params.offsets,
-            params.scales,
+            # the dimension keeps its own arrays: the params object
+            # and its arrays stay the caller's
+            None if params.offsets is None else np.array(params.offsets),
+            None if params.scales is None else np.array(params.scales),
         )
         me._validate()
         return me
